@@ -45,6 +45,10 @@ where
         return Err(());
     }
     let scale = AsPrimitive::<F>::as_(free_weight.as_()) / normalization;
+    if !scale.is_finite() {
+        // Can happen for extremely small (but still normal) `normalization`.
+        return Err(());
+    }
 
     let mut cumulative_float = F::zero();
     let mut accumulated_slack = Probability::zero();
@@ -88,6 +92,10 @@ where
         return Err(());
     }
     let scale = remaining_free_weight.into() / normalization;
+    if !scale.is_finite() {
+        // Can happen for extremely small (but still normal) `normalization`.
+        return Err(());
+    }
 
     let mut slots = probabilities
         .iter()
